@@ -231,6 +231,61 @@ def run (an : Text → Option Diags) (s : State) : List Event → Option State
     | none => none
     | some s' => run an s' rest
 
+/-! ## The shared analyzer as an explicit component
+
+`step` takes the analysis as a function of the text.  The code has one `Analyzer` *object* behind the
+mutex (`tools.analyzer`), which every shared job mutates: symbol tables, collision maps, Merlin's
+workspace scan.  `stepS` makes that object's state explicit: a job's result is whatever the analyzer
+returns *in the state the previous holder left it in*, in the order in which the jobs obtained the
+mutex.  Jobs launched by the configuration handler own a new analyzer (`Analyzer::new()`). -/
+
+/-- everything `analyze` can leave behind in the analyzer object -/
+abbrev AState := Nat
+
+/-- `Analyzer::new()` and `analyze` + `get_diags` as they are: result *and* successor state may depend
+on the state the analyzer is called in -/
+structure Analyzer where
+  fresh : AState
+  run : AState → Text → Option Diags × AState
+
+structure SState where
+  srv : State
+  /-- state of the analyzer object inside `tools.analyzer` -/
+  shared : AState
+
+def sinit (A : Analyzer) : SState := { srv := init, shared := A.fresh }
+
+/-- the analysis function a job sees when the analyzer is in state `a` -/
+def viewOf (A : Analyzer) (a : AState) : Text → Option Diags := fun t => (A.run a t).1
+
+def stepS (A : Analyzer) (ss : SState) (e : Event) : Option SState :=
+  match e with
+  | .finish id =>
+    match findJob ss.srv.queue id with
+    | none => none
+    | some j =>
+      if j.priv then
+        -- its own `Arc<Mutex<Analyzer::new()>>`
+        (step (viewOf A A.fresh) ss.srv (.finish id)).map (fun s' => { srv := s', shared := ss.shared })
+      else
+        (step (viewOf A ss.shared) ss.srv (.finish id)).map
+          (fun s' => { srv := s', shared := (A.run ss.shared j.doc.text).2 })
+  | e => (step (viewOf A ss.shared) ss.srv e).map (fun s' => { srv := s', shared := ss.shared })
+
+def runS (A : Analyzer) (ss : SState) : List Event → Option SState
+  | [] => some ss
+  | e :: rest =>
+    match stepS A ss e with
+    | none => none
+    | some ss' => runS A ss' rest
+
+/-- `analyze` starts by resetting whatever it keeps: its result does not depend on the state it is
+called in (the successor state is unconstrained) -/
+def Analyzer.resets (A : Analyzer) : Prop := ∀ a t, (A.run a t).1 = (A.run A.fresh t).1
+
+/-- analysis of a text alone, by a new analyzer: what the harness' fresh single-document server computes -/
+def Analyzer.alone (A : Analyzer) : Text → Option Diags := viewOf A A.fresh
+
 /-- what a launched job publishes when it is harvested after a normal analysis -/
 def pubOf (an : Text → Option Diags) (jd : Nat × Doc) : Option Pub :=
   match an jd.2.text with
